@@ -821,4 +821,140 @@ example : isOk (dataCall exSys none none none none (fun _ => exUnits) (.fixed 3)
     decide +kernel
   · intro col hcol; simp [exSys] at hcol
 
+/-- the text of a call whose second value the model does not carry (`extra = []`): where it goes. -/
+theorem callResult_routes (t : Target) (w : Bool) (text : List Char) :
+    (t = .none → (callResult (deliver t w) text []).returned.head? = some text ∧
+      (callResult (deliver t w) text []).written = none) ∧
+    (t ≠ .none → (callResult (deliver t w) text []).written = some text ∧
+      (callResult (deliver t w) text []).returned = if w then [[]] else []) ∧
+    (callResult (deliver t w) text []).returned.length = (deliver t w).count := by
+  refine ⟨?_, ?_, ?_⟩
+  · intro ht; subst ht; cases w <;> simp [callResult, deliver]
+  · intro ht; cases t with
+    | none => exact absurd rfl ht
+    | path n => cases w <;> simp [callResult, deliver]
+    | stream => cases w <;> simp [callResult, deliver]
+  · cases t <;> cases w <;> rfl
+
+/-- **dump_call_end_to_end**: `System.dump('atom_dump', f=, lammps_units=, prop_name=, float_format=,
+    return_prop_info=)` as a whole, for every accepted call: the one text is returned first when no target is given,
+    else written to the target and not returned; as read by the independent `dump custom` reader it names the step the
+    system holds (whatever numeric type carries it; 0 when it has none), the system's atom count = the number of rows,
+    and the requested columns in order (`dump_parse_write` gives the rest: flags, bounding box, cells). -/
+theorem dump_call_end_to_end (s : Sys) (props : List (String × List Nat)) (u : Units) (f : Fmt) (sv : StepVal)
+    (t : Target) (w : Bool) (r : CallResult) (h : dumpCall s props u f sv t w = .ok r)
+    (hn : NamesOk (props.map fun p => dumpCol p.1 p.2)) (hid : IdNamesOk (props.map fun p => dumpCol p.1 p.2)) :
+    ∃ text pd, writeDumpStep s props u f sv = .ok text ∧
+      (t = .none → r.returned.head? = some text ∧ r.written = none) ∧
+      (t ≠ .none → r.written = some text ∧ r.returned = if w then [[]] else []) ∧
+      r.returned.length = (deliver t w).count ∧
+      parseDump text = some pd ∧ pd.timestep = sv.step ∧ pd.natoms = s.natoms ∧ pd.rows.length = s.natoms ∧
+      pd.columns = nameLine (props.map fun p => dumpCol p.1 p.2) ∧
+      pd.boundary = [bflagD s.pbc.x, bflagD s.pbc.y, bflagD s.pbc.z] := by
+  unfold dumpCall at h
+  cases hd : writeDumpStep s props u f sv with
+  | error e => rw [hd] at h; simp [Except.map] at h
+  | ok text =>
+    rw [hd] at h
+    simp only [Except.map, Except.ok.injEq] at h
+    subst h
+    obtain ⟨lf, rows, _, _, _, _, hlen, hp⟩ := dump_parse_write s props u f sv.step text hd hn hid
+    obtain ⟨r1, r2, r3⟩ := callResult_routes t w text
+    exact ⟨text, _, rfl, r1, r2, r3, hp, rfl, rfl, by simp [hlen], rfl, rfl⟩
+
+/-- **table_call_end_to_end**: `System.dump('table', f=, prop_name=, unit=, header=, float_format=,
+    return_prop_info=)` as a whole: the one text is returned or written (never both); a reader that splits at blanks
+    gets one row per atom, the header line exactly when asked for, every row as long as the header. -/
+theorem table_call_end_to_end (s : Sys) (cols : List ColSpec) (u : Units) (f : Fmt) (header : Bool)
+    (t : Target) (w : Bool) (r : CallResult) (h : tableCall s cols u f header t w = .ok r)
+    (hn : NamesOk cols) (hid : IdNamesOk cols) :
+    ∃ text pt, writeTable s cols u f header = .ok text ∧
+      (t = .none → r.returned.head? = some text ∧ r.written = none) ∧
+      (t ≠ .none → r.written = some text ∧ r.returned = if w then [[]] else []) ∧
+      r.returned.length = (deliver t w).count ∧
+      parseTable text header = some pt ∧ pt.rows.length = s.natoms ∧
+      pt.columns = (if header then some (nameLine cols) else none) ∧
+      (∀ row ∈ pt.rows, row.length = (nameLine cols).length) := by
+  unfold tableCall at h
+  cases hd : writeTable s cols u f header with
+  | error e => rw [hd] at h; simp [Except.map] at h
+  | ok text =>
+    rw [hd] at h
+    simp only [Except.map, Except.ok.injEq] at h
+    subst h
+    obtain ⟨rows, _, hlen, hrow, hp⟩ := table_parse_write s cols u f header text hd hn hid
+    obtain ⟨r1, r2, r3⟩ := callResult_routes t w text
+    refine ⟨text, _, rfl, r1, r2, r3, hp, by simp [hlen], rfl, ?_⟩
+    intro row hrow'
+    simp only [List.mem_map] at hrow'
+    obtain ⟨r0, hr0, rfl⟩ := hrow'
+    simp [hrow r0 hr0]
+
+/-- **poscar_call_end_to_end**: `System.dump('poscar', f=, header=, symbols=, coordstyle=, box_scale=, float_format=)`
+    as a whole: the text is returned exactly when no target is given (nothing else ever is), else written; the
+    independent POSCAR reader gets the file `poscar_parse_write` describes (factor, lattice × factor, symbols, one
+    count per type, mode, rows by type). -/
+theorem poscar_call_end_to_end (s : Sys) (header : List String) (symbols : Option (List String)) (coordstyle : String)
+    (scale : ℚ) (f : Fmt) (t : Target) (r : CallResult) (h : poscarCall s header symbols coordstyle scale f t = .ok r)
+    (hs : PoscarStringsOk header symbols coordstyle) (hscale : 0 < fmtVal f scale)
+    (hlen : s.atype.length = s.pos.length) (hty : ∀ t ∈ s.atype, 1 ≤ t ∧ t ≤ (s.natypes : Int)) :
+    ∃ text, writePoscar s header symbols coordstyle scale f = .ok text ∧
+      (t = .none → r.returned = [text] ∧ r.written = none) ∧
+      (t ≠ .none → r.written = some text ∧ r.returned = []) ∧
+      parsePoscar text = some (poscarExpected f header symbols coordstyle scale
+        (poscarNums s (isCartTok (strTok coordstyle)) scale)) := by
+  unfold poscarCall at h
+  cases hd : writePoscar s header symbols coordstyle scale f with
+  | error e => rw [hd] at h; simp [Except.map] at h
+  | ok text =>
+    rw [hd] at h
+    simp only [Except.map, Except.ok.injEq] at h
+    subst h
+    obtain ⟨_, _, _, _, _, hp⟩ := poscar_parse_write s header symbols coordstyle scale f text hd hs hscale hlen hty
+    refine ⟨text, rfl, ?_, ?_, hp⟩
+    · intro ht; subst ht; simp [callResult, deliver]
+    · intro ht; cases t with
+      | none => exact absurd rfl ht
+      | path n => simp [callResult, deliver]
+      | stream => simp [callResult, deliver]
+
+example : isOk (dumpCall ({ exSys with pos := [⟨0, 0, 0⟩, ⟨1, 1, 1⟩] }) exProps exUnits (.exp 5) (.real 25000) .stream true) = true ∧
+    isOk (tableCall exSys exCols exUnits (.fixed 3) true (.path "t.txt") false) = true ∧
+    isOk (poscarCall exSys ["test"] (some ["Al", "Cu"]) "Cartesian" 2 (.exp 5) .none) = true := by
+  decide +kernel
+
+/-- **default_dump_columns**: a dump file written without `prop_name` has the id column first, exactly once, and
+    after it every per-atom property of the system exactly once in the system's order (none lost, none added) —
+    whether or not the system carries its own `atom_id`, wherever it stands. -/
+theorem default_dump_columns (atomsProps : List String) (hnd : atomsProps.Nodup) :
+    (defaultDumpNames atomsProps).head? = some "atom_id" ∧ (defaultDumpNames atomsProps).Nodup ∧
+    (∀ n, n ∈ defaultDumpNames atomsProps ↔ n = "atom_id" ∨ n ∈ atomsProps) ∧
+    (defaultDumpNames atomsProps).tail = atomsProps.filter (· ≠ "atom_id") ∧
+    (defaultDumpProps [("atype", []), ("pos", [3])]).map (·.1) = ["atom_id", "atype", "pos"] := by
+  refine ⟨rfl, ?_, ?_, ?_, by decide⟩
+  · unfold defaultDumpNames
+    rw [List.nodup_cons]
+    exact ⟨fun hm => (List.Nodup.mem_erase_iff hnd).mp hm |>.1 rfl, hnd.erase _⟩
+  · intro n
+    unfold defaultDumpNames
+    rw [List.mem_cons]
+    constructor
+    · rintro (h | h)
+      · exact Or.inl h
+      · exact Or.inr (List.mem_of_mem_erase h)
+    · rintro (h | h)
+      · exact Or.inl h
+      · by_cases hn : n = "atom_id"
+        · exact Or.inl hn
+        · exact Or.inr ((List.mem_erase_of_ne hn).mpr h)
+  · unfold defaultDumpNames
+    simp only [List.tail_cons]
+    rw [hnd.erase_eq_filter]
+    congr 1
+    funext x
+    by_cases hx : x = "atom_id" <;> simp [hx]
+
+example : defaultDumpProps [("atype", []), ("pos", [3]), ("atom_id", []), ("stress", [3, 3])] =
+    [("atom_id", []), ("atype", []), ("pos", [3]), ("stress", [3, 3])] := by decide
+
 end Atomman.C07
